@@ -321,6 +321,13 @@ def raw_origin(v: V) -> Optional[RawOrigin]:
             return RawOrigin(set(v.args[0].kinds), v.args[1], "property")
         if v.op == "meth" and isinstance(v.args[0], NodeV):
             return RawOrigin(set(v.args[0].kinds), v.args[1] + "()", "method")
+        if v.op == "splitpart" and isinstance(v.args[1], str) and len(v.args[1]) == 1:
+            # a piece of the text cut at every occurrence of one character: the same origin, and free of that character
+            o = raw_origin(v.args[0])
+            if o:
+                o.sanitised_to = "[^" + re.escape(v.args[1]) + "]"
+                o.note += f" split at {v.args[1]!r}"
+            return o
         if v.op == "elem":
             o = raw_origin(v.args[0])
             if o:
